@@ -117,17 +117,31 @@ func (tree *Tree[T]) Add(pattern string, h T, ms []types.Middleware[T], methods 
 		defer tree.locker.Unlock()
 	}
 
-	n, err := tree.getNode(pattern)
+	if len(methods) == 0 {
+		methods = AnyMethods
+	}
+
+	segs, err := tree.interceptors.Split(pattern)
+	if err != nil {
+		return err
+	}
+
+	// 在修改树之前验证 methods，保证出错时不会改变任何内容。
+	var exists map[string]T
+	if n := tree.Find(pattern); n != nil {
+		exists = n.handlers
+	}
+	if err := checkMethods(tree.hasTrace, exists, methods); err != nil {
+		return err
+	}
+
+	n, err := tree.node.getNode(segs)
 	if err != nil {
 		return err
 	}
 
 	if n.handlers == nil {
 		n.handlers = make(map[string]T, handlersSize)
-	}
-
-	if len(methods) == 0 {
-		methods = AnyMethods
 	}
 	return n.addMethods(h, pattern, ms, methods...)
 }
